@@ -69,15 +69,22 @@ func caseLex(src string) string {
 	l := lexer.New(src)
 	var sb strings.Builder
 	sb.WriteString("LEX\t")
-	limit := len(src) + 4
+	limit := len(src) + 5
+	prev := ""
 	for i := 0; i < limit; i++ {
 		t := l.NextToken()
+		cur := fmt.Sprintf("%d:%s:%d:%d:%d:%d", int(t.Type), hx(t.Literal),
+			t.Pos.StartLine, t.Pos.StartCol, t.Pos.EndLine, t.Pos.EndCol)
+		// an ILLEGAL token that is not consumed comes back forever: stop at its first repetition
+		if t.Type == token.ILLEGAL && cur == prev {
+			return sb.String()
+		}
 		if i > 0 {
 			sb.WriteByte(';')
 		}
-		fmt.Fprintf(&sb, "%d:%s:%d:%d:%d:%d", int(t.Type), hx(t.Literal),
-			t.Pos.StartLine, t.Pos.StartCol, t.Pos.EndLine, t.Pos.EndCol)
-		if t.Type == token.EOF || t.Type == token.ILLEGAL {
+		sb.WriteString(cur)
+		prev = cur
+		if t.Type == token.EOF {
 			return sb.String()
 		}
 	}
